@@ -669,6 +669,31 @@ pub fn run<C: VCtx>(ctx: &C, op: &str, a: &[Value]) -> Value {
             coms.push(C::e_out(&z3.cp_prove(&x, &y, &y2, None, &g2, b"l").unwrap().commitment1));
             json!(coms)
         }
+        // OS entropy on SEVERAL threads of one process: every thread draws exponents, encrypts the same message under the
+        // same key and proves knowledge of the same secret; returns per thread [exponents, ciphertext, schnorr commitment]
+        "fresh_threads" => {
+            let k = usize_in(&a[0]);
+            let pk_e = C::e_in(&a[1]);
+            let m = C::e_in(&a[2]);
+            let x = C::x_in(&a[3]);
+            let outs: Vec<Value> = std::thread::scope(|sc| {
+                let hs: Vec<_> = (0..k)
+                    .map(|_| {
+                        let (pk_e, m, x) = (pk_e.clone(), m.clone(), x.clone());
+                        sc.spawn(move || {
+                            let xs: Vec<C::X> = (0..3).map(|_| ctx.rnd_exp()).collect();
+                            let pk = PublicKey::from_element(&pk_e, ctx);
+                            let c = pk.encrypt(&m);
+                            let z = Zkp::new(ctx);
+                            let s = z.schnorr_prove(&x, &ctx.gmod_pow(&x), None, b"t").unwrap();
+                            json!([xs_out::<C>(&xs), c_out(&c), C::e_out(&s.commitment)])
+                        })
+                    })
+                    .collect();
+                hs.into_iter().map(|h| h.join().unwrap_or(json!("panic"))).collect()
+            });
+            json!(outs)
+        }
         "fresh_rnd_exp" => {
             let n = usize_in(&a[0]);
             xs_out::<C>(&(0..n).map(|_| ctx.rnd_exp()).collect::<Vec<_>>())
